@@ -231,7 +231,9 @@ def o_identity(case, lines):
             return "sorted nodes are not grouped by document in document order: %s" % (seq[:8],)
     oi = sec(lines, "OI")
     if oi:
-        exp = sum(max(0, n - k - 1) for k in range(3)) + 4 * n
+        nodes_ = tree_from_N(lines)
+        sub = sum(nd["ndesc"] for nd in nodes_[:40]) if nodes_ else 0
+        exp = sum(max(0, n - k - 1) for k in range(3)) + 4 * n + sub + sum(1 for k in range(3) if n > k)
         if int(oi[0][1]) != exp:
             return "only %s of %d nodes reached through descendants().nth(k) round-trip through get_node(n.id())" % (oi[0][1], exp)
     oh = sec(lines, "OH")
@@ -619,7 +621,12 @@ def o_borrowed(case, lines):
 # ---- C12 -------------------------------------------------------------------------------------
 def o_lookups(case, lines):
     """name-based lookups against the enumerated attributes / namespaces of the same dump"""
-    if result_class(lines) != "ok" or "c" not in case.flags:
+    if result_class(lines) != "ok":
+        return None
+    lb0 = sec(lines, "LB")
+    if lb0 and lb0[0][1] != "0":
+        return "%s answers of namespace / name lookups depend on hidden state (earlier queries or the address of the argument)" % lb0[0][1]
+    if "c" not in case.flags:
         return None
     attrs = {}
     for r in sec(lines, "A"):
@@ -698,6 +705,9 @@ def o_lookups(case, lines):
                 e = next((pp for pp, uu in nl if uu == u), "-")
             if g != e:
                 return "node %d: lookup_prefix(%s) = %s, first binding %s" % (i, u, g, e)
+    lb = sec(lines, "LB")
+    if lb and lb[0][1] != "0":
+        return "%s answers of namespace / name lookups depend on hidden state (earlier queries or the address of the argument)" % lb[0][1]
     lq = sec(lines, "LQ")
     if lq:
         all_attrs = []
